@@ -2,6 +2,7 @@ use crate::Ctx;
 
 pub mod c01;
 pub mod c02;
+pub mod c04;
 pub mod c08;
 pub mod c09;
 pub mod c12;
@@ -12,6 +13,7 @@ pub fn dispatch(prop: &str, ctx: &Ctx) -> ! {
     match prop {
         "C01" => c01::run(ctx),
         "C02" => c02::run(ctx),
+        "C04" => c04::run(ctx),
         "C08" => c08::run(ctx),
         "C09" => c09::run(ctx),
         "C12" => c12::run(ctx),
